@@ -436,6 +436,27 @@ def ascii_variant(b):
     return bytes(x if x < 128 else 97 for x in b)
 
 
+START_TAIL_ALPHA = bytes([32, 9, 64, 65, 91, 49, 57, 58, 13, 10, 127, 128, 0, 47, 72])
+START_CONTEXTS = {
+    "q": [b"", b"G", b"GE", b"GET", b"GET ", b"GET /", b"GET /a ", b"GET / H", b"GET / HTTP/1", b"GET / HTTP/1.",
+          b"GET / HTTP/1.1", b"GET / HTTP/1.1\r", b"POS", b"POST", b"\r\nGET"],
+    "p": [b"", b"H", b"HTTP/1", b"HTTP/1.", b"HTTP/1.1", b"HTTP/1.1 ", b"HTTP/1.1 2", b"HTTP/1.1 20", b"HTTP/1.1 200",
+          b"HTTP/1.1 200 ", b"HTTP/1.1 200 O", b"HTTP/1.1 200\r", b"\nHTTP/1.0"],
+}
+
+
+def start_tails(maxlen):
+    out = []
+    for kind, ctxs in START_CONTEXTS.items():
+        for ci, c0 in enumerate(ctxs):
+            for t in gen.exhaustive(START_TAIL_ALPHA, maxlen):
+                if not t:
+                    continue
+                for cfg in ((0, 4) if kind == "q" else (0, 8)):
+                    out.append(("A", "stail.%s%d.%s.%d" % (kind, ci, t.hex(), cfg), kind, 1, cfg, 4, c0 + t))
+    return out
+
+
 def run_C11(ctx):
     if not need(ctx, ["default"]):
         return
@@ -444,7 +465,10 @@ def run_C11(ctx):
     # plus: every position of a sample of bases with a wrong byte as the last byte received
     nb = 90 if ctx.quick else 1500
     pre += corpora.cut_after_bad(bases[:nb] + [c for c in bases if c[2] == "c"][:nb // 6])
-    res = execute("C11", pre)
+    # plus: bounded-exhaustive tails after every start-line context (one, two or three more bytes have arrived,
+    # any of which may be wrong -- a look-ahead fast path only fires once enough bytes are there)
+    pre += start_tails(3 if ctx.quick else 4)
+    res = execute("C11", pre, want_ref=True)
     ctx.broken += res.errors
     partials = []
     for cid, iraw in res.impl.items():
@@ -454,6 +478,13 @@ def run_C11(ctx):
             if Obs(res.model[cid]).status != Obs(iraw).status:
                 ctx.mismatch(res.cases[cid], iraw, res.model[cid])
         if Obs(iraw).kindclass == "P":
+            # the reference grammar (for which Thm/C11 proves: Partial => completable, Err => stays Err under every
+            # extension) already rejects these bytes: no continuation is an accepted head, yet the call says Partial
+            R = Obs(res.ref.get(cid, "")) if res.ref.get(cid) else None
+            if R is not None and R.kindclass == "E":
+                ctx.fail(res.cases[cid], "Partial although the bytes received can no longer be extended to an accepted head: "
+                         "the reference grammar answers %s for this buffer (and for every extension of it)" % R.status, impl=iraw, ref=R.raw)
+                continue
             partials.append(res.cases[cid])
     # distinct (kind, cfg, buffer) partial states
     seen = set()
@@ -1141,7 +1172,8 @@ def run_C18(ctx):
             if r.chance(1, 4):
                 base = gen.mutate(r, base)
             n = 2 + r.below(3)
-            cuts = sorted(len(base) if r.chance(1, 2) else r.below(len(base) + 1) for _ in range(n - 1)) + [len(base)]
+            cuts = sorted(len(base) if r.chance(1, 2) else (0 if r.chance(1, 6) else r.below(len(base) + 1))
+                          for _ in range(n - 1)) + [len(base)]
             rel = gen.relevant_cfgs(kind)
             for cut in cuts:
                 cfg = r.choice(rel) if r.chance(2, 3) else r.below(128)
@@ -1180,6 +1212,12 @@ def run_C18(ctx):
         e, cf, uc, b = h[4][-1]
         vl = int(O.start or 0)
         fresh.append(("A", cid + ".fresh", h[2], e, cf, uc if e >= 2 else vl, b))
+        if cid.startswith("grow."):
+            # the documented loop: the earlier calls saw strict prefixes of this buffer; none of them can have been
+            # Complete (checked below against the fresh result), so `headers` must still be the caller's whole array
+            fresh.append(("A", cid + ".fresh0", h[2], e, cf, uc if e >= 2 else h[3], b))
+            for j, (ej, cfj, ucj, bj) in enumerate(h[4][:-1]):
+                fresh.append(("A", "%s.e%d" % (cid, j), h[2], ej, cfj, ucj if ej >= 2 else h[3], bj))
     res2 = execute("C18-fresh", fresh, want_model=False)
     ctx.broken += res2.errors
     for h in hs:
@@ -1194,6 +1232,17 @@ def run_C18(ctx):
         ctx.sample(h, a)
         if A.status != F.status or (A.kindclass == "C" and (A.f, A.exposed) != (F.f, F.exposed)):
             ctx.fail(h, "the probe after this history differs from the probe on a fresh value: fresh=%s" % b, impl=a)
+            continue
+        b0 = res2.impl.get(cid + ".fresh0")
+        if b0 is not None:
+            F0 = Obs(b0)
+            # each earlier call, made on a fresh value over the original array, is not Complete: then (by the property
+            # itself, inductively) none of them was Complete in the history, and `headers` is still the whole array
+            ej = [res2.impl.get("%s.e%d" % (cid, j)) for j in range(len(h[4]) - 1)]
+            none_complete = all(x is not None and Obs(x).kindclass in "PE" for x in ej)
+            if none_complete and (A.status != F0.status or (A.kindclass == "C" and (A.f, A.exposed) != (F0.f, F0.exposed))):
+                ctx.fail(h, "the documented loop (re-parsing one growing buffer on the same value, over the same %d-slot array) "
+                         "differs from parsing the final buffer with a fresh value over such an array: fresh=%s" % (h[3], b0), impl=a)
 
 
 # ---------------------------------------------------------------- C19
@@ -1328,12 +1377,34 @@ def time_scaling(ctx):
 
 def _time_variant(ctx, variant, fams, cases):
     res = execute("C20-time", cases, variant=variant, mode="time", want_model=False, use_cache=False)
-    ctx.broken += res.errors
     t = {}
+    timed_out = set()
     for cid, raw in res.impl.items():
         m = re.search(r"ns=(\d+)", raw)
         if m:
             t[cid] = int(m.group(1))
+        elif "XTIMEOUT" in raw:
+            timed_out.add(cid)
+    # a case the watchdog had to stop is an observation (the call did not come back), not a machinery problem
+    ctx.broken += [e for e in res.errors if not ("exited 124" in e and timed_out)]
+    if timed_out:
+        # the cases that shared a process with it were lost: run them again without it
+        rest = [c for c in cases if c[1] not in t and c[1] not in timed_out]
+        if rest:
+            res2 = execute("C20-time-rest", rest, variant=variant, mode="time", want_model=False, use_cache=False)
+            for cid, raw in res2.impl.items():
+                m = re.search(r"ns=(\d+)", raw)
+                if m:
+                    t[cid] = int(m.group(1))
+    for cid in sorted(timed_out):
+        c = res.cases[cid]
+        fam = cid.split(".")[1]
+        small = [x for x in fams.get(fam, {}).values() if x[1] != cid and x[1] in t]
+        ctx.evaluations += 1
+        ctx.fail(c, "a %d-byte input of the %s family did not return within the harness watchdog's limit (harness variant %s)%s"
+                 % (len(c[6]), fam, variant,
+                    "".join("; the %d-byte input of the same family takes %.3f ms" % (len(x[6]), t[x[1]] / 1e6) for x in small)),
+                 impl="XTIMEOUT")
     for fam, d in fams.items():
         sizes = sorted(d)
         if len(sizes) != 2:
